@@ -100,7 +100,7 @@ def rule_bounds(ctx, tu, I):
             ctx.violation(R, n, fn, what, "a count of kind %r receives %r" % (want, got))
     for a in sorted(I.assumptions):
         ctx.assume(a)
-    ctx.floor(R, 280)
+    ctx.floor(R, 240)     # coverage guard (see C01.LAYOUT)
     ctx.analysed["C11.BOUNDS"] = {"subscripts": len(I.subs), "tables": len(layouts),
                                   "pointer_requirements": {"%s:%s" % k: sorted(repr(x) for x in v)
                                                            for k, v in ptr_req.items()}}
